@@ -284,10 +284,8 @@ var c04IndexTable = map[string]string{
 	"internal/ast.BuilderGenerator.structObjectToBuilder option.Assignments[0]":                       "option is what structFieldToOption returned one statement earlier: an Option literal whose Assignments is the one-element literal []Assignment{FieldAssignment(field)}",
 	"internal/veneers/option.StructFieldsAsOptionsAction newOpt.Assignments[0]":                       "newOpt is built by structFieldToOption-like code just above with exactly one assignment",
 	"internal/veneers/option.StructFieldsAsOptionsAction newOpt.Assignments[0] #2":                    "newOpt is built by structFieldToOption-like code just above with exactly one assignment",
-	"internal/ast/compiler.RenameNumericEnumValues.enumMemberNameFromValue member.Name[0]":            "its only caller first requires strconv.Atoi(val.Name) to succeed: the name is a printed integer, never empty",
 	"internal/veneers/builder.composeBuilderForType composableBuilders[0]":                            "the lists of composableBuilders are built by appending builders per panel type: never empty",
 	"internal/veneers/builder.composeBuilderForType composableBuilders[0] #2":                         "the lists of composableBuilders are built by appending builders per panel type: never empty",
-	"internal/ast/compiler.PrefixEnumValues.enumMemberNameFromValue member.Name[0]":                   "reached for int64 members only (the function returns above for every other kind): the name is the printed number, never empty",
 	"internal/ast/compiler.SanitizeEnumMemberNames.sanitizeEnumMember member.Name[0]":                 "an empty name is replaced by \"None\" at the top of the function",
 	"internal/ast/compiler.SanitizeEnumMemberNames.sanitizeEnumMember member.Name[0] #2":              "an empty name is replaced by \"None\" at the top of the function",
 	"internal/languages.ConverterGenerator.convertListOfDisjunctionOptions options[0].Assignments[0]": "the lists in listOfDisjunctionOptions are created by appending an option whose filtered assignments were just indexed: neither is empty",
@@ -1009,4 +1007,117 @@ func repairsEmptiness(info *types.Info, body *ast.BlockStmt, p ast.Expr) bool {
 		}
 	}
 	return repaired
+}
+
+// cfgNilMaps: a map field filled by the YAML decoder is nil after decoding when the document gives the key with no
+// value (`parameters:` with every entry commented out) — even if the loader had put a map there before. Every map
+// field of the configuration structs of internal/codegen that cog later stores into (`x.F[k] = v`) is re-created by
+// the loader, after decoding, under `x.F == nil`.
+func cfgNilMaps(ctx *Ctx, r *Report) {
+	p := ctx.Pkg("internal/codegen")
+	if p == nil {
+		r.Undecided("anchor lost: internal/codegen")
+		return
+	}
+	info := p.TypesInfo
+	// yaml-tagged map fields
+	var fields []*types.Var
+	for _, f := range p.Syntax {
+		ast.Inspect(f, func(m ast.Node) bool {
+			st, ok := m.(*ast.StructType)
+			if !ok {
+				return true
+			}
+			for _, fld := range st.Fields.List {
+				if fld.Tag == nil || !strings.Contains(fld.Tag.Value, "yaml:") || len(fld.Names) == 0 {
+					continue
+				}
+				if _, isMap := info.TypeOf(fld.Type).Underlying().(*types.Map); !isMap {
+					continue
+				}
+				if v, _ := info.Defs[fld.Names[0]].(*types.Var); v != nil {
+					fields = append(fields, v)
+				}
+			}
+			return true
+		})
+	}
+	n := 0
+	for _, fv := range fields {
+		// is it stored into anywhere?
+		var storeAt token.Pos
+		for _, f := range p.Syntax {
+			// stores made while ranging over the map itself never run on a nil map
+			var inRange []*ast.RangeStmt
+			ast.Inspect(f, func(m ast.Node) bool {
+				if rs, ok := m.(*ast.RangeStmt); ok && fieldOf(info, rs.X) == fv {
+					inRange = append(inRange, rs)
+				}
+				return true
+			})
+			ast.Inspect(f, func(m ast.Node) bool {
+				as, ok := m.(*ast.AssignStmt)
+				if !ok {
+					return true
+				}
+				for _, rs := range inRange {
+					if containsNode(rs.Body, as) {
+						return true
+					}
+				}
+				for _, l := range as.Lhs {
+					if ix, ok := ast.Unparen(l).(*ast.IndexExpr); ok && fieldOf(info, ix.X) == fv && !storeAt.IsValid() {
+						storeAt = as.Pos()
+					}
+				}
+				return true
+			})
+		}
+		if !storeAt.IsValid() {
+			continue
+		}
+		n++
+		// the loader: a function that decodes YAML and re-creates the map under a nil test after the decode
+		recreated := false
+		for _, f := range p.Syntax {
+			for _, d := range f.Decls {
+				fd, ok := d.(*ast.FuncDecl)
+				if !ok || fd.Body == nil {
+					continue
+				}
+				decodeAt := token.NoPos
+				ast.Inspect(fd.Body, func(k ast.Node) bool {
+					if c, ok := k.(*ast.CallExpr); ok {
+						if fn := callee(info, c); fn != nil && (fn.Name() == "DecodeStrict" || fn.Name() == "Decode") && !decodeAt.IsValid() {
+							decodeAt = c.Pos()
+						}
+					}
+					return true
+				})
+				if !decodeAt.IsValid() {
+					continue
+				}
+				ast.Inspect(fd.Body, func(k ast.Node) bool {
+					is, ok := k.(*ast.IfStmt)
+					if !ok || is.Pos() < decodeAt {
+						return true
+					}
+					be, ok := ast.Unparen(is.Cond).(*ast.BinaryExpr)
+					if !ok || be.Op != token.EQL || !isNilIdent(info, be.Y) || fieldOf(info, be.X) != fv {
+						return true
+					}
+					for _, st := range is.Body.List {
+						if as, ok := st.(*ast.AssignStmt); ok && len(as.Lhs) == 1 && fieldOf(info, as.Lhs[0]) == fv {
+							recreated = true
+						}
+					}
+					return true
+				})
+			}
+		}
+		r.Check(recreated, "cfgschema/nil-maps", "internal/codegen field "+fv.Name()+" is a map after loading", storeAt, "the loader re-creates the map under a nil test after decoding",
+			fv.Name()+" is a map filled by the YAML decoder and stored into later ("+ctx.Pos(storeAt)+"): a key given without a value (`"+strings.ToLower(fv.Name())+":` with every entry commented out) decodes as a nil map, and nothing re-creates it after decoding — the store panics with `assignment to entry in nil map`")
+	}
+	r.Count("configuration maps stored into after loading", n)
+	r.Floor("configuration maps stored into after loading", 1)
 }
